@@ -1,7 +1,7 @@
 use std::{
     future::Future,
     io,
-    mem::{ManuallyDrop, MaybeUninit},
+    mem::MaybeUninit,
     pin::Pin,
     task::{Context, Poll},
 };
@@ -191,16 +191,11 @@ impl Socket {
     }
 
     pub fn close(self) -> impl Future<Output = io::Result<()>> {
-        // Make sure that self won't be dropped after `close` called.
         // Users may call this method and drop the future immediately. In that way the
-        // `close` should be cancelled.
-        let this = ManuallyDrop::new(self);
+        // `close` should be cancelled: the socket moved into the future is dropped
+        // like any other handle.
         async move {
-            let fd = ManuallyDrop::into_inner(this)
-                .socket
-                .into_inner()
-                .take()
-                .await;
+            let fd = self.socket.into_inner().take().await;
             if let Some(fd) = fd {
                 let op = CloseSocket::new(fd.into());
                 compio_runtime::submit(op).await.0?;
